@@ -1228,6 +1228,12 @@ replace github.com/mazrean/kessoku => %s
 `, env.SyncVer, pipe.RepoDir())
 	mustOK(os.WriteFile(filepath.Join(we.Dir, "go.mod"), []byte(mod), 0o644))
 	mustOK(os.WriteFile(filepath.Join(we.Dir, "go.sum"), repoSums(), 0o644))
+	// Everything below compiles tens of thousands of throw-away packages (the tools' own
+	// `go list -export` runs included): all of it goes to verif's bounded bulk build cache, never to
+	// the shared ~/.cache/go-build. pipe.RunGo selects it by itself; the tools inherit it from our
+	// environment (runTool and pipe.GoEnv derive the children's environment from ours).
+	pipe.MaintainBulkCache()
+	mustOK(os.Setenv("GOCACHE", pipe.BulkCache))
 	mustOK(os.WriteFile(filepath.Join(we.Dir, "sym", "sym.go"), []byte(symSrc), 0o644))
 	mustOK(os.MkdirAll(filepath.Join(we.Dir, "symrun"), 0o755))
 	mustOK(os.WriteFile(filepath.Join(we.Dir, "symrun", "symrun.go"), []byte(symRunSrc), 0o644))
